@@ -197,6 +197,9 @@ func Run(id, tier string, seed int) int {
 		}
 	}
 	os.RemoveAll(filepath.Join(VerifRoot, "replays", id))
+	// keep replay artefacts (Go files) out of the verif module
+	os.MkdirAll(filepath.Join(VerifRoot, "replays"), 0o755)
+	os.WriteFile(filepath.Join(VerifRoot, "replays", "go.mod"), []byte("module verifreplays\n\ngo 1.23\n"), 0o644)
 	var fatalErr error
 	if len(ch.Entries) > 0 {
 		fatalErr = runEntries(ctx)
